@@ -211,7 +211,12 @@ func doRequestFollowRedirectsBuffer(ctx context.Context, req *protocol.Request, 
 	// The body is copied into dst. (dst used to be lent to the response's pooled body
 	// buffer; Do resets the response first, which sends that buffer - the caller's
 	// memory - back to the shared pool while the exchange is still under way.)
-	body = append(dst[:0], resp.Body()...)
+	// (a streamed body is read here: what goes wrong while reading it is the call's error)
+	b, bodyErr := resp.BodyE()
+	body = append(dst[:0], b...)
+	if err == nil {
+		err = bodyErr
+	}
 	protocol.ReleaseResponse(resp)
 
 	return statusCode, body, err
